@@ -77,7 +77,27 @@ func runOne(sc *scen, st sched.Strategy, settle bool, hit map[int]bool) (rs resu
 	msg1, msg2 := []byte("hello-first-message"), []byte("world-second")
 	var cancelDone, op1Done bool
 	var pwg sync.WaitGroup
+	// "-idle" variants: the peer neither writes nor reads, so only the cancellation can end the operation; no probe follows
+	idle := strings.HasSuffix(sc.Dir, "-idle")
+	dir := strings.TrimSuffix(sc.Dir, "-idle")
 	switch sc.Dir {
+	case "read-idle":
+		s.Go("R", func() {
+			buf := make([]byte, 64)
+			n, err := a.ReadContext(ctx1, buf)
+			mu.Lock()
+			ops = append(ops, opres{n, err})
+			op1Done = true
+			mu.Unlock()
+		})
+	case "write-idle":
+		s.Go("W", func() {
+			n, err := a.WriteContext(ctx1, msg1)
+			mu.Lock()
+			ops = append(ops, opres{n, err})
+			op1Done = true
+			mu.Unlock()
+		})
 	case "read":
 		s.Go("R", func() {
 			buf := make([]byte, 64)
@@ -148,7 +168,7 @@ func runOne(sc *scen, st sched.Strategy, settle bool, hit map[int]bool) (rs resu
 	mu.Unlock()
 	// promptness: at a quiescent point the cancelled operation must not still be parked inside the wrapper
 	if out == sched.Quiescent && cd && !od {
-		fn := map[string]string{"read": "ReadContext", "write": "WriteContext"}[sc.Dir]
+		fn := map[string]string{"read": "ReadContext", "write": "WriteContext"}[dir]
 		for _, t := range s.Pending() {
 			if t.Name == "R" || t.Name == "W" {
 				for _, g := range gstate.Snapshot() {
@@ -168,7 +188,7 @@ func runOne(sc *scen, st sched.Strategy, settle bool, hit map[int]bool) (rs resu
 			mu.Lock()
 			n := len(ops)
 			mu.Unlock()
-			if n >= 2 {
+			if n >= 2 || idle && n >= 1 {
 				break
 			}
 			time.Sleep(100 * time.Microsecond)
@@ -189,6 +209,16 @@ func runOne(sc *scen, st sched.Strategy, settle bool, hit map[int]bool) (rs resu
 	defer mu.Unlock()
 	_ = nops
 	if rs.key != "" || out == sched.TimedOut {
+		return rs
+	}
+	if idle {
+		if len(ops) < 1 {
+			rs.desc = "inconclusive: the cancelled operation did not return"
+			return rs
+		}
+		if e := ops[0].err; !errors.Is(e, context.Canceled) || ops[0].n != 0 {
+			rs.key, rs.desc = "ctxsched:"+sc.Kind+":cancel-result", fmt.Sprintf("%s with an idle peer and a cancelled context returned n=%d err=%v, expected 0 bytes and the context's error", dir, ops[0].n, e)
+		}
 		return rs
 	}
 	if len(ops) < 2 {
@@ -243,7 +273,7 @@ func main() {
 	flag.Parse()
 	_ = nshard
 	r := res.New("C17")
-	r.Rule = "schedule exploration of one context-aware operation on netctx.Conn / connctx over net.Pipe (read or write side), its watcher goroutine, the cancel() call and the peer as separate tasks of a cooperative scheduler (yield points before every lock/channel/select/WaitGroup operation of netctx/conn.go and connctx.go), followed by a live-context probe operation; strategies DFS (preemption bound 2), PCT d=2..4, random; oracle: cancelled operation not parked at a quiescent point, context error only with zero bytes, the probe never fails with a deadline/context error, bytes received == bytes reported written; distinct = distinct schedules"
+	r.Rule = "schedule exploration of one context-aware operation on netctx.Conn / connctx over net.Pipe (read or write side), its watcher goroutine, the cancel() call and the peer as separate tasks of a cooperative scheduler (yield points before every lock/channel/select/WaitGroup operation of netctx/conn.go and connctx.go), followed by a live-context probe operation; variants with an idle peer (nothing but the cancellation can end the operation; it must return 0 bytes and the context's error); strategies DFS (preemption bound 2), PCT d=2..4, random; oracle: cancelled operation not parked at a quiescent point, context error only with zero bytes, the probe never fails with a deadline/context error, bytes received == bytes reported written; distinct = distinct schedules"
 	r.Assumptions = []string{"net.Pipe is not instrumented: its blocking is observed through goroutine states", "a task released from a real blocking operation runs freely up to its next yield point"}
 	hit := map[int]bool{}
 	seen := map[string]int{}
@@ -305,25 +335,29 @@ func main() {
 	if *tier == "thorough" {
 		budget, n = 6000, 8000
 	}
-	var prefix []int
-	for k := 0; k < budget; k++ {
-		d := &sched.DFS{Prefix: prefix, Bound: 2}
-		c := dsc
-		c.Prefix = prefix
-		rs := one(&c, d, true)
-		r.Count("dfs_schedules", 1)
-		if rs.key != "" {
-			break
-		}
-		prefix = d.Next()
-		if prefix == nil {
-			r.Count("dfs_frontiers_exhausted", 1)
-			break
+	for _, suffix := range []string{"", "-idle"} {
+		var prefix []int
+		for k := 0; k < budget; k++ {
+			d := &sched.DFS{Prefix: prefix, Bound: 2}
+			c := dsc
+			c.Dir += suffix
+			c.Prefix = prefix
+			rs := one(&c, d, true)
+			r.Count("dfs_schedules", 1)
+			if rs.key != "" {
+				break
+			}
+			prefix = d.Next()
+			if prefix == nil {
+				r.Count("dfs_frontiers_exhausted", 1)
+				break
+			}
 		}
 	}
+	dirs = []string{"read", "write", "read-idle", "write-idle"}
 	rng := rand.New(rand.NewSource(*seed*1201 + int64(*shard)*71 + 43))
 	for i := 0; i < n; i++ {
-		sc := &scen{Kind: kinds[rng.Intn(2)], Dir: dirs[rng.Intn(2)], Chunk: []int{3, 7, 64}[rng.Intn(3)], Seed: rng.Int63()}
+		sc := &scen{Kind: kinds[rng.Intn(2)], Dir: dirs[rng.Intn(len(dirs))], Chunk: []int{3, 7, 64}[rng.Intn(3)], Seed: rng.Int63()}
 		if rng.Intn(5) == 0 {
 			sc.Strategy = "random"
 		} else {
